@@ -19,16 +19,33 @@ RULE = (
     "a case is one of: a primary header field vector (scid, src/dst, vcid, map, frame length, bypass, protocol-command, "
     "OCF flag, VCF length, VCF count) [pack, len, unpack, re-pack, header type]; a truncated header vector; a refused "
     "out-of-range ID through one constructor; a transfer frame (kind fixed/variable/truncated, header, rule, UPID, pointer, "
-    "TFDZ, insert zone, OCF, FECF) [pack with explicit and automatic frame type, len, frame-length field, TFDF alone, unpack "
-    "with matching managed parameters, re-pack, and every detectable mismatching parameter set]. Headers: SCID and frame "
+    "TFDZ, insert zone, OCF, FECF) [pack with explicit and automatic frame type, len, frame-length field, TFDF alone (unpack with "
+    "and without frame type, its len and re-pack), unpack with matching managed parameters, len / TFDF len / re-pack / "
+    "set_frame_len_in_header of the DECODED frame, and every detectable mismatching parameter set]; a history (see below). "
+    "Headers: SCID and frame "
     "length full(16), VCID x MAP x src/dst full, flags full, VCF length 0..7 x walk(8n) x flags, each in K background vectors, "
     "plus the full product of the edge alphabets. A header vector is counted distinct non-trivial the first time its tuple "
     "is produced inside a shard and when no earlier axis sweep (scid, then frame length) contains it; frames, truncated "
-    "headers and refusals are disjoint by construction (shard coordinates are part of the case)."
+    "headers and refusals are disjoint by construction (shard coordinates are part of the case). "
+    "Independence: every object the library hands out in a case (constructed and decoded headers, frames, the decoded frame's "
+    "header and data field, data fields, and the very bytearray returned by every pack()) is held and re-observed (pure attribute "
+    "reads / bytes) after the remaining calls of its case and after all calls of the next case of the enumeration, whose values differ. "
+    "Histories: from every start state (constructed through the public constructors with nothing read yet; decoded from the "
+    "reference octets) every word up to the depth bound over  mutators (assignment of tfdf.tfdz shorter/longer/same length, "
+    "insert_zone, fecf, op_ctrl_field+flag, header VCF count (length), header IDs, header flags, header.frame_len, tfdf.fhp_or_lvop "
+    "value, tfdf.uslp_ident, tfdf.tfdz_contr_rules within its class, a new TransferFrameDataField, a new header)  +  observers "
+    "(len, pack with explicit / automatic frame type, set_frame_len_in_header, tfdf.len, tfdf.pack, header.pack, header.len) is executed "
+    "against a plain-dict model; each observer is compared with ref/uslp.py for the model's current values where it occurs, after the "
+    "last letter all observers run once more, the frame length is updated, and the re-encoded frame is decoded with the managed "
+    "parameters of the current values. Header histories likewise (one mutator per field, out-of-range assignment of each ID which "
+    "pack() must refuse with ValueError until it is assigned in range again, observers pack and len). A history is a distinct "
+    "non-trivial case by its word and start state."
 )
 BOUNDS = {
-    "quick": "K=4 backgrounds, N=4096 out-of-range values per side; frames: 8 rules x 32 UPIDs x 19 TFDZ lengths x 3 insert zones x 2 OCF x 3 FECF, header and pointer rotated",
-    "thorough": "K=8, N=65536; frames as quick x all 4 headers, plus pointer full(16) per fixed rule",
+    "quick": "K=4 backgrounds, N=4096 out-of-range values per side; frames: 8 rules x 32 UPIDs x 19 TFDZ lengths x 3 insert zones x 2 OCF x 3 FECF, "
+             "header and pointer kind rotated so that every (header, pointer kind, insert zone, OCF, FECF, TFDZ length) combination occurs; "
+             "histories: depth <= 3 (frames: 3+3+2 start states x 2 origins, alphabet 23 fixed / 22 variable / 16 truncated; headers: 4 start vectors x 2 origins, alphabet 15 / 9)",
+    "thorough": "K=8, N=65536; frames as quick x all 4 headers, plus pointer full(16) per fixed rule; histories: depth <= 4",
 }
 ASSUMPTIONS = [
     "reference ref/uslp.py transcribes CCSDS 732.1-B-2 4.1.2 / 4.1.4.2 / annex D; bound to the octets asserted by tests/test_uslp.py in selftest/st_ref_misc.py",
@@ -37,6 +54,11 @@ ASSUMPTIONS = [
     "variable properties for a fixed call, insert-zone / FECF sizes leaving no data field or less than its header (3 octets for the fixed rules), truncated length beyond the input; a wrong size that still fits is undetectable and not demanded",
     "a raw frame shorter than its own length field (no managed parameter involved) is C10's prefix clause, not judged here",
     "out-of-range IDs include negative integers (DESIGN.md 3.3 alphabet)",
+    "an object whose public attributes were assigned is a header / frame with those values (TransferFrame.unpack and PrimaryHeader.unpack build their results by such "
+    "assignments, tests/test_uslp.py assigns header attributes and packs again); NOT demanded: a pointer that appears or disappears by assignment "
+    "(tfdf.fhp_or_lvop None <-> value: the data-field size is only recomputed by the tfdz setter on the reference tree), a construction rule assigned across the "
+    "fixed/variable classes, an OCF whose header flag is not assigned with it",
+    "independence is observed between cases adjacent in the enumeration order (a result is re-observed after its own and the next case)",
 ]
 
 NEGATIVE_IDS = True
@@ -123,25 +145,14 @@ def in_axis_sweeps(r, bgs, groups=AXIS_GROUPS[:2]):
     return False
 
 
-def _obs_hdr(o):
-    """what a caller relies on: the field values and the octets they pack to"""
-    return UU.observe_primary_header(o), bytes(o.pack())
-
-
-def _obs_trunc_hdr(o):
-    return UU.observe_truncated_header(o), bytes(o.pack())
-
-
-def _obs_any_hdr(o):
-    return UU.observe_header(o), bytes(o.pack())
-
-
-def _obs_frame(o):
-    return UU.observe_frame(o), o.len()
-
-
-def _obs_tfdf(o):
-    return UU.observe_tfdf(o), o.len()
+# Observers of the independence oracle are pure attribute reads that copy: they must not call pack()/len() themselves,
+# a library call made while re-observing could rewrite the very shared state (output buffer, template) whose change
+# is being looked for and so mask it.
+_obs_hdr = UU.observe_primary_header
+_obs_trunc_hdr = UU.observe_truncated_header
+_obs_any_hdr = UU.observe_header
+_obs_frame = UU.observe_frame
+_obs_tfdf = UU.observe_tfdf
 
 
 HOLDS = {"hdr": 6, "trunc_hdr": 6, "frame": 14}  # results held per case; every result is re-observed after its own and after the next case
@@ -152,7 +163,6 @@ def keeper_for(rec, kind):
 
 
 def check_header(rec: Rec, r: dict, nontrivial=True, keep=None):
-    h = _h()
     case = {"kind": "hdr", "r": r}
     keep = keep or keeper_for(rec, "hdr")
     try:
@@ -609,4 +619,6 @@ def finalize(tier, agg):
     c = agg["counters"]
     return {"per_axis_coverage": {"scid": f"{c.get('scid_values_swept', 0)}/65536", "frame_len": f"{c.get('frame_len_values_swept', 0)}/65536",
                                   "vcid x map x src_dest": "2048/2048 per background", "vcf_count_len": "0..7 x walk(8n) x 8 flag settings"},
-            "frames": {k: c.get(k, 0) for k in ("frames_fixed", "frames_var", "frames_trunc")}}
+            "frames": {k: c.get(k, 0) for k in ("frames_fixed", "frames_var", "frames_trunc")},
+            "independence": {"results_held": c.get("independence_results_held", 0), "reobservations": c.get("independence_reobservations", 0)},
+            "histories": {k: v for k, v in sorted(c.items()) if "histories" in k or k == "history_model_states"}}
